@@ -276,6 +276,54 @@ func genAPI(c *Ctx) error {
 	}
 	methods := []string{"GET", "POST", "DELETE", "PUT", "HEAD", "PATCH"}
 	paths := []string{"/stream", "/tx", "/halt", "/handoff", "/promote", "/import", "/export", "/info", "/events", "/nope", "/", "/halt/", "/Export"}
+	// directed: the well-formed shape of every state-changing request on each role; a node that is
+	// not primary (a connected replica, a node that knows no primary at all) proceeds with none of them
+	for _, role := range []string{"orphan", "replica", "primary"} {
+		for _, hasDB := range []bool{true, false} {
+			cs := c.Begin()
+			do := func(op string) string { c.Count("op." + strings.SplitN(op, " ", 2)[0]); return cs.Do(op) }
+			v := newVPrimary(r, 512)
+			do("open " + role)
+			do("api-start")
+			if hasDB {
+				v.randomCommit(4)
+				do("sapply " + v.snapshot())
+			}
+			enc := func(s string) string { return strings.ReplaceAll(s, " ", "_") }
+			snapshotState := func() string {
+				return do("state") + "|" + do("ltx") + "|" + do("locks") + "|" + do("dbs")
+			}
+			img := v.tok0()
+			if img == "-" {
+				w := newVPrimary(r, 512)
+				w.randomCommit(3)
+				img = w.tok0()
+			}
+			for _, rq := range []string{
+				"POST /halt name=db&id=7 other -",
+				"POST /halt name=fresh&id=9 other -",
+				"DELETE /halt name=db&id=7 other -",
+				"POST /tx name=db&lockID=7 other ltx:" + enc(v.peekCommit()),
+				"POST /import name=db none " + img,
+				"POST /import name=fresh2 none " + img,
+				"POST /handoff nodeID=0000000000000001 none -",
+				"POST /promote - none -",
+			} {
+				for _, proto := range []string{"1", "2"} {
+					before := snapshotState()
+					out := do("http " + proto + " " + rq)
+					after := snapshotState()
+					c.Count("directed.res." + role + "." + firstWords(out, 1))
+					if role != "primary" && before != after && !strings.Contains(rq, "/promote") {
+						c.Fail(fmt.Sprintf("directed (%s, db=%v): %q answered %q and changed the node although it is not primary", role, hasDB, rq, out))
+					}
+				}
+			}
+			do("http 1 GET /info - none -")
+			cs.End()
+			c.Nontrivial(fmt.Sprintf("directed-%s-%v", role, hasDB))
+		}
+	}
 	for h := 0; h < nHist; h++ {
 		cs := c.Begin()
 		role := pick(r, []string{"primary", "primary", "replica", "orphan"})
